@@ -729,6 +729,16 @@ func batch(r *vh.Run, i int, nreq int) {
 		// a file somebody keeps next to the repositories (`serve --dir .` is the default): its name is a repository name
 		_ = os.WriteFile(filepath.Join(root, "notes.txt"), []byte("not a repository\n"), 0o644)
 	}
+	if kind == vh.MemDir {
+		// the memory store reads a backing directory only where it is an OCI layout: a directory store creates the
+		// repositories first, so that the hostile requests also reach the store's look-ups in the directory
+		ps := vh.New(vh.Conf(vh.Dir, root, vh.Neutral))
+		for _, rp := range []string{"r", "r/n", "other"} {
+			b := []byte(fmt.Sprintf("backing content %d %s", i, rp))
+			vh.Do(ps, vh.Req{Method: "POST", URL: "/v2/" + rp + "/blobs/uploads/?digest=" + vh.DigestOf("sha256", b), Body: b})
+		}
+		_ = ps.Close()
+	}
 	c := vh.Conf(kind, root, vh.Neutral)
 	c.Storage.GC.RepoUploadMax = 5
 	c.API.Manifest.Limit = 60000
